@@ -40,21 +40,28 @@ CLAIMS['C02'] = {
             'C02_Carried and C02_NoReadAhead; one stream per transition of its state graph (every split offered at every offset, pointer fields, '
             'multi-section units, interleavings, counter wrap) plus seeded random streams from an independent reference multiplexer are demuxed '
             'by the real Demuxer; Mon_C02 requires per-PID FIFO equality of deliveries and carried units, nothing left at EOF, no error, and '
-            'bytes pulled = 188 x index of the final packet for every PAT/PMT.',
-    'note': TRUST, 'technique': 'TLA+ model checking (TLC) + trace validation of real-code demux traces (Mon_C02)', 'ref': 'DESIGN.md 4 C02'}
+            'bytes pulled = 188 x index of the final packet for every PAT/PMT. The model\'s predicted delivery sequences are compared with the code '
+            '(drift). PacketPool.tla (the packet pool over a free alphabet, isPSIComplete byte for byte) is model-checked and a sample of the streams '
+            'plus free-alphabet streams are validated step by step against it (Mon_Acc: accumulator hook decisions, groups handed to parseData, '
+            'end-of-stream dump).',
+    'note': TRUST, 'technique': 'TLA+ model checking (TLC) + trace validation of real-code demux traces (Mon_C02, Mon_Acc)', 'ref': 'DESIGN.md 4 C02, 13.7'}
 CLAIMS['C06'] = {
     'text': 'Demux.tla with a dup/drop channel and a clean twin in lock-step is model-checked for C06_DupHarmless and C06_LossSafe (counterexamples '
             'for the two historical deviations); real runs: TLC fault behaviours, every single duplication and deletion position of clean streams, '
             'seeded multi-fault bursts (<16); each stream is demuxed with and without the faults by the real Demuxer and Mon_C06 judges the two '
-            'delivered sequences (identity on PES PIDs under duplicates; every faulted delivery equals a clean unit; only hit units missing).',
-    'note': TRUST, 'technique': 'TLA+ model checking (TLC) + exhaustive fault-position enumeration judged by trace validation (Mon_C06)', 'ref': 'DESIGN.md 4 C06'}
+            'delivered sequences (identity on PES PIDs under duplicates; every faulted delivery equals a clean unit; only hit units missing). '
+            'PacketPool.tla is model-checked (TLC) and its shape lemma discharged by Apalache; the faulted streams, free-alphabet streams and one '
+            'behaviour per explored transition of PacketPool.tla are replayed into the real Demuxer and validated against it (Mon_Acc).',
+    'note': TRUST, 'technique': 'TLA+ model checking (TLC, Apalache lemma) + exhaustive fault-position enumeration judged by trace validation (Mon_C06, Mon_Acc)', 'ref': 'DESIGN.md 4 C06, 13.7'}
 CLAIMS['C03'] = {
     'text': 'Reader.tla models packet-buffer creation, auto-detection (peek / rewind / resync) and per-packet reads against short-read schedules; TLC '
             'proves EndsInBoundedCalls and EOFAbsorbing for the ideal and exhibits the never-ending behaviour of the historical size-0 buffer. Real '
             'runs: model-guided mutations of well-formed streams (every declared length field x {0,1,true-1,true+1,max}, truncations, corruption, '
             'garbage, empty) x packet size {auto,188,192,204,189} x four reader kinds x {NextPacket, NextData}; Mon_C03 requires no panic, monotone '
-            'consumption, ErrNoMorePackets within |input|+2 calls and absorbing. TLA+ does not predict panics: absence is asserted on the inputs run.',
-    'note': TRUST, 'technique': 'TLA+ model checking (TLC) + model-guided input mutation judged by trace validation (Mon_C03)', 'ref': 'DESIGN.md 4 C03'}
+            'consumption, ErrNoMorePackets within |input|+2 calls and absorbing. TLA+ does not predict panics: absence is asserted on the inputs run. '
+            'Reader.tla is bound to the code: every NextPacket call of 4 620 (quick) reader configurations must be a result Reader!Call allows '
+            '(Mon_Reader).',
+    'note': TRUST, 'technique': 'TLA+ model checking (TLC) + model-guided input mutation judged by trace validation (Mon_C03, Mon_Reader)', 'ref': 'DESIGN.md 4 C03, 13.7'}
 CLAIMS['C07'] = {
     'text': 'Merge.tla enumerates every order-preserving merge of the per-PID packet sequences (TLC, by packet-count vector); for each stream the real '
             'Demuxer is run on the base order (three times), on the TLC-enumerated merges (all, or a seeded sample above a budget), with a '
@@ -64,8 +71,9 @@ CLAIMS['C07'] = {
 CLAIMS['C08'] = {
     'text': 'Reader.tla (short-read schedules x reader kinds x auto/explicit) model-checked for SameAsFull; counterexample for single-Read peek. Real '
             'runs: each stream through ~190 (quick) / ~3000 (thorough) configurations of reader kind x schedule x explicit/auto x frame size 188..250, '
-            'via NextPacket and NextData; Mon_C08 requires equality with the reference run within the classes the statement defines.',
-    'note': TRUST, 'technique': 'TLA+ model checking (TLC) + configuration enumeration judged by trace validation (Mon_C08)', 'ref': 'DESIGN.md 4 C08'}
+            'via NextPacket and NextData; Mon_C08 requires equality with the reference run within the classes the statement defines. Reader.tla is '
+            'bound to the code: every NextPacket call of 4 620 (quick) configurations must be a result Reader!Call allows (Mon_Reader).',
+    'note': TRUST, 'technique': 'TLA+ model checking (TLC) + configuration enumeration judged by trace validation (Mon_C08, Mon_Reader)', 'ref': 'DESIGN.md 4 C08, 13.7'}
 CLAIMS['C19'] = {
     'text': 'For streams generated from Demux.tla and the seeded reference multiplexer, and nine predicate families, the real Demuxer is run with the '
             'skipper, on the filtered stream, with an observing and with a replacing PacketsParser; Mon_C19 requires: callback sequence = stream '
@@ -75,8 +83,9 @@ CLAIMS['C19'] = {
 CLAIMS['C20'] = {
     'text': 'For streams generated from Demux.tla and the seeded reference multiplexer x {explicit, auto}: every number k of NextData calls before '
             'Rewind, NextPacket counts, mixed and repeated rewinds on the real Demuxer; Mon_C20 requires Rewind = (0, nil) and the post-rewind '
-            'deliveries to equal a fresh Demuxer\'s.',
-    'note': TRUST, 'technique': 'TLA+-generated scenarios + exhaustive call-count enumeration judged by trace validation (Mon_C20)', 'ref': 'DESIGN.md 4 C20'}
+            'deliveries to equal a fresh Demuxer\'s. Demux.tla models Rewind (pool and data buffer replaced, program map kept): C20_RewindFresh is '
+            'model-checked for every consumption point, with counterexamples for a kept data buffer and for PMTs preceding their PAT.',
+    'note': TRUST, 'technique': 'TLA+ model checking (TLC) + TLA+-generated scenarios + exhaustive call-count enumeration judged by trace validation (Mon_C20)', 'ref': 'DESIGN.md 4 C20, 13.7'}
 CODEC_NOTE = TRUST + ' Numeric ranges are covered structurally (0, max, every single-bit value, flag subsets, boundary lengths, seeded random), not exhaustively (DESIGN.md 6).'
 CLAIMS['C09'] = {
     'text': 'Every single-bit flip (exhaustive per unit), byte substitutions, bursts <= 32 bits, truncations and extensions of seeded units of all six '
